@@ -85,6 +85,8 @@ def variants(spec: T, v: Any, ctx: Ctx) -> Iterator[Any]:
             cur = v.fields[f.name]
             if cur is c or (type(cur) is type(c) and cur == c):
                 continue
+            if v.ctor is not None:
+                continue  # __post_init__ effects: the field values are not free
             nf = dict(v.fields)
             nf[f.name] = c
             yield VObj(v.cls, v.kind, nf, v.present, v.noinit)
@@ -105,7 +107,7 @@ def build_value(spec: T, v: Any, mod, ctx: Ctx):
         ob = ctx.env.get(v.cls)
         cls = getattr(mod, v.cls)
         kw = {}
-        for k, x in v.fields.items():
+        for k, x in (v.ctor if v.ctor is not None else v.fields).items():
             if x is MISSING or k in v.noinit:
                 continue
             kw[k] = build_any(x, mod, ctx)
